@@ -447,3 +447,44 @@ Proof.
   - destruct (arr_to_f64 raw) eqn:Ea; try discriminate. apply Fin. rewrite <- Hty. exact Ea.
   - apply Fin. rewrite <- Hty. reflexivity.
 Qed.
+
+(* ------------------------------------------------------------------ C14 / C05: recovery only moves forward *)
+Lemma p_header_pos c st : b_bytes (fst (p_header c st)) = b_bytes st /\ b_off (fst (p_header c st)) = b_off st.
+Proof.
+  rewrite p_header_unfold. destruct (p_tag_id st) as [[id idl]|e|]; try (split; reflexivity).
+  unfold p_hdr_tail. destruct (read_vint _) as [[[size sl]|]|e1|]; try (split; reflexivity).
+  destruct (is_numeric _ && _); [split; reflexivity|]. destruct (negb (c_allow_id c) && _); [split; reflexivity|].
+  pose proof (p_hier_step_pos c st id (get_type (c_sp c) id)) as Hq.
+  destruct (p_hier_step _ _ _ _) as [st1 [e1|]]; cbn [fst] in *; [exact Hq|].
+  destruct (b_bad st1); [exact Hq|]. destruct (_ && _); [exact Hq|].
+  destruct (c_max c); destruct (ebml_size size sl); try destruct (_ <? _); exact Hq.
+Qed.
+
+Lemma p_recover_loop_forward c : forall fuel st, b_off st <= b_off (fst (p_recover_loop fuel c st)).
+Proof.
+  induction fuel as [|f IH]; intros st; cbn [p_recover_loop]; [cbn; lia|].
+  destruct (b_bytes st); [cbn; lia|].
+  destruct (p_header_pos c (pconsume st 1)) as [_ Ho].
+  destruct (p_header c (pconsume st 1)) as [st2 [h|e|]]; cbn [fst] in *.
+  - rewrite Ho. cbn. lia.
+  - specialize (IH st2). rewrite Ho in IH. cbn in IH. lia.
+  - cbn. rewrite Ho. cbn. lia.
+Qed.
+
+Theorem try_recover_forward c st : b_off st <= b_off (fst (p_try_recover c st)).
+Proof.
+  unfold p_try_recover. pose proof (p_recover_loop_forward c (b_fuel st) st) as H.
+  destruct (p_recover_loop (b_fuel st) c st) as [st1 [e|]]; cbn [fst] in *; exact H.
+Qed.
+
+(* try_recover fails only by reporting the end of the input (the buffered machine can additionally report a source error) *)
+Theorem try_recover_errors c st e : snd (p_try_recover c st) = Some e -> exists o, e = REof o None None None.
+Proof.
+  unfold p_try_recover.
+  assert (H : forall fuel s e0, snd (p_recover_loop fuel c s) = Some e0 -> exists o, e0 = REof o None None None).
+  { induction fuel as [|f IH]; intros s e0; cbn [p_recover_loop]; [discriminate|].
+    destruct (b_bytes s); [intros H; inversion H; eexists; reflexivity|].
+    destruct (p_header c (pconsume s 1)) as [st2 [h|e1|]]; cbn [snd]; try discriminate. apply IH. }
+  specialize (H (b_fuel st) st). destruct (p_recover_loop (b_fuel st) c st) as [st1 [e1|]]; cbn [snd] in *; [|discriminate].
+  intros Hq; inversion Hq; subst. apply H. reflexivity.
+Qed.
